@@ -245,7 +245,7 @@ class Ctx:
     def a_bol(self, i):
         if i == 0:
             return not self.notbol
-        return self.cps[i - 1] == 10
+        return self.cps[i - 1] == 10 and i < self.n      # not after the newline that ends the string (F11 repair)
 
     def a_eol(self, i):
         if i == self.n:
